@@ -59,7 +59,9 @@ def is_u8_sink_type(ty):
 
 class Extractor:
     """mode 'w': tokens are writes to the sink; mode 'r': tokens are reads from the source.
-    sink_pred(it, S, recv_sv, recv_type) decides whether a receiver is the tracked byte stream."""
+    sink_pred(it, S, recv_sv, recv_type) decides whether a receiver is the tracked byte stream.
+    The traversal is a path-sensitive replay: the abstract state is carried along each path without joins,
+    so constants chosen on a branch stay constants and infeasible edges are pruned exactly."""
 
     def __init__(self, env, key, mode, entry=None, sink_pred=None, max_paths=4000, follow=None):
         self.env = env
@@ -67,11 +69,13 @@ class Extractor:
         self.ctx = env.ctx
         self.body = self.prog.bodies[key]
         self.mode = mode
-        if entry is not None:
-            self.it = Interp(self.ctx, self.body, entry)
-            self.it.run()
+        self.it = Interp(self.ctx, self.body, entry if entry is not None else self.ctx.entries.get(key))
+        if entry is None:
+            self.fix = self.ctx.interp(key)
         else:
-            self.it = self.ctx.interp(key)
+            self.fix = Interp(self.ctx, self.body, entry)
+            self.fix.run()
+        self.it.cond = dict(self.fix.cond)
         self.sink_pred = sink_pred or (lambda it, S, v, ty: is_u8_sink_type(ty))
         self.max_paths = max_paths
         self.paths = []
@@ -83,45 +87,22 @@ class Extractor:
 
     def run(self):
         from . import interp as I
+        from . import absint as A
         I.CUR_BODY[0] = self.body
-        self._dfs(0, [], {}, frozenset(), "ret")
+        saved = A.WRITE_LOG
+        A.WRITE_LOG = None
+        try:
+            self._dfs(0, [], {}, frozenset(), "ret", self.it.initial_state())
+        finally:
+            A.WRITE_LOG = saved
         seen = []
+        sset = set()
         for p in self.paths:
-            if p not in seen:
+            if p not in sset:
+                sset.add(p)
                 seen.append(p)
         self.paths = seen
         return self
-
-    def return_tokens(self, bi):
-        """("returns", rendered value, intervals of the values read on this path) for each whole assignment of _0"""
-        body, it = self.body, self.it
-        out = []
-        blk = body.blocks[bi]
-        idxs = [si for si, st in enumerate(blk["stmts"]) if st["place"]["l"] == 0 and not st["place"]["p"]]
-        if not idxs:
-            return out
-        S0 = it.entry_states.get(bi)
-        if S0 is None:
-            return out
-        S = S0.copy()
-        for si, st in enumerate(blk["stmts"]):
-            it.cur = (bi, si)
-            it.counter = 0
-            it.transfer_stmt(S, st)
-            if S.dead:
-                break
-            if si in idxs:
-                v = S.read((("L", 0), ()))
-                doms = []
-                for (rk, rb) in self.read_sites:
-                    R = ("call", (rk, rb, len(body.blocks[rb]["stmts"])), callee_path(body.blocks[rb]["term"]))
-                    P = project(R, (("dc", 0, "Ok"), ("f", 0, "0")))
-                    d = S.dom(P)
-                    base = S._default_dom(P, 0)
-                    if d != base or True:
-                        doms.append((rb, d.lo, d.hi, tuple(sorted(d.excl))))
-                out.append(("returns", render_value(self.prog, v), tuple(doms)))
-        return out
 
     def _result_of_block(self, bi, res):
         """classification of the function result by the last assignment to _0 on the path"""
@@ -141,28 +122,41 @@ class Extractor:
             res = "err" if callee_name(t).endswith("::from_residual") else "ok|err"
         return res
 
-    def _dfs(self, bi, toks, used, exiting, res):
+    def _dfs(self, bi, toks, used, exiting, res, S_in):
         if len(self.paths) >= self.max_paths:
             self.truncated = True
             return
         body, it = self.body, self.it
-        if it.entry_states.get(bi) is None:
-            return
         blk = body.blocks[bi]
         t = blk["term"]
-        new = self.tokens_of_block(bi)
-        toks = toks + new + self.return_tokens(bi)
+        S = S_in.copy()
+        rets = []
+        for si, st in enumerate(blk["stmts"]):
+            it.cur = (bi, si)
+            it.counter = 0
+            it.transfer_stmt(S, st)
+            if S.dead:
+                return
+            if st["place"]["l"] == 0 and not st["place"]["p"]:
+                rets.append(self.return_token(S))
+        it.cur = (bi, len(blk["stmts"]))
+        it.counter = 0
+        new = self.tokens_of_block(bi, S)
+        toks = toks + rets + new
         res = self._result_of_block(bi, res)
         k = t["k"]
         if k == "return":
             self.paths.append(tuple(toks + [("end", res)]))
             return
-        succs = [s for s in body.succs[bi] if (bi, s) in it.edge_out]
-        if not succs:
+        dec = it.eval_op(S, t["discr"]) if k == "switch" else None
+        it.cur = (bi, len(blk["stmts"]))
+        it.counter = 0
+        edges = [(s, S2) for (s, S2) in it.flow(S, bi) if not body.blocks[s]["cleanup"]]
+        if not edges:
             if k in ("unreachable", "call", "resume", "other"):
                 self.paths.append(tuple(toks + [("end", "diverge")]))
             return
-        for s in succs:
+        for s, S2 in edges:
             e = (bi, s)
             n = used.get(e, 0)
             is_back = e in body.back_edges
@@ -171,33 +165,45 @@ class Extractor:
             if n >= (2 if any(bi in body.loops[h] for h in exiting) else 1):
                 continue
             extra = []
+            if k == "call" and t["dest"]["l"] == 0 and not t["dest"]["p"]:
+                extra.append(self.return_token(S2))
             if k == "switch":
-                extra = self.decision_token(bi, s)
+                extra = extra + self.decision_token(bi, s, dec)
             ex2 = exiting
             if is_back:
                 extra = extra + [("again",)]
                 ex2 = exiting | {s}
+                # values created inside the loop are re-created on the next visit: continue from the
+                # (joined) fixpoint state of the loop head instead of the path state
+                S2 = self.fix.entry_states.get(s)
+                if S2 is None:
+                    continue
             u2 = dict(used)
             u2[e] = n + 1
-            self._dfs(s, toks + extra, u2, ex2, res)
+            self._dfs(s, toks + extra, u2, ex2, res, S2)
+
+    def return_token(self, S):
+        body = self.body
+        v = S.read((("L", 0), ()))
+        doms = []
+        for (rk, rb) in self.read_sites:
+            R = ("call", (rk, rb, len(body.blocks[rb]["stmts"])), callee_path(body.blocks[rb]["term"]))
+            P = project(R, (("dc", 0, "Ok"), ("f", 0, "0")))
+            d = S.dom(P)
+            doms.append((rb, d.lo, d.hi, tuple(sorted(d.excl))))
+        return ("returns", render_value(self.prog, v), tuple(doms))
 
     # --------------------------------------------------------------------------------
-    def decision_token(self, bi, succ):
+    def decision_token(self, bi, succ, dv):
         """a token recording a branch on input-derived data (variant of a parameter, constant compared with a read value)"""
-        body, it = self.body, self.it
+        body = self.body
         t = body.blocks[bi]["term"]
-        S = it.exit_state(bi)
-        if S is None:
-            return []
-        it.cur = (bi, 0)
-        dv = it.eval_op(S, t["discr"])
-        if is_const(dv):
+        if dv is None or is_const(dv):
             return []
         vals = [v for v, b in t["targets"] if b == succ]
         is_other = (t["otherwise"] == succ) and not vals
-        core = dv
-        desc = stable(core)
-        if self.interesting(core):
+        desc = stable(dv)
+        if self.interesting(dv):
             if is_other:
                 return [("when", desc, "other:" + ",".join(str(v) for v, _ in t["targets"]))]
             return [("when", desc, ",".join(str(v) for v in vals))]
@@ -206,8 +212,6 @@ class Extractor:
     def interesting(self, sv):
         """discriminants of parameters, values read from the source, comparisons of such values with constants"""
         def leaf(x):
-            if not isinstance(x, tuple):
-                return False
             if x[0] == "discr":
                 return True
             if x[0] == "elem":
@@ -219,15 +223,13 @@ class Extractor:
             return False
         return contains(sv, leaf)
 
-    def tokens_of_block(self, bi):
+    def tokens_of_block(self, bi, S):
         body, it = self.body, self.it
         t = body.blocks[bi]["term"]
         if t["k"] != "call":
             return []
         name = callee_name(t)
-        S, args = args_at(self.ctx, body.key, bi) if self.it is self.ctx.interps.get(body.key) else self._args(bi)
-        if S is None:
-            return []
+        args = [it.eval_op(S, a) for a in t["args"]]
         toks = []
         if self.mode == "w":
             if name in WRITE_CALLS and args and self.sink_pred(it, S, args[0], it.op_type(t["args"][0])):
@@ -235,14 +237,14 @@ class Extractor:
                 toks.append(self.value_token(w + endian(t), S, args[1]))
             elif name in BYTE_PUSH and args and self._is_byte_vec(it.op_type(t["args"][0])) and self.sink_pred(it, S, args[0], it.op_type(t["args"][0])):
                 toks.append(self.value_token("u8", S, args[1]))
-            elif name in BYTES_APPEND and args and self.sink_pred(it, S, args[0], it.op_type(t["args"][0])) and self._is_byte_sink(it.op_type(t["args"][0])):
+            elif name in BYTES_APPEND and args and self.sink_pred(it, S, args[0], it.op_type(t["args"][0])) and is_u8_sink_type(it.op_type(t["args"][0])):
                 src = args[1]
                 c = const_of(src)
                 if isinstance(c, tuple) and c and c[0] == "b":
                     for b in c[1]:
                         toks.append(("u8", "const", b))
                 else:
-                    toks.append(("bytes", self.bytes_role(S, src)))
+                    toks.append(("bytes", stable(src)))
             elif name in OTHER_SINK_WRITERS and args and self._is_byte_vec(it.op_type(t["args"][0])) and self.sink_pred(it, S, args[0], it.op_type(t["args"][0])):
                 self.unmodelled.append((name, t["span"]))
                 toks.append(("unmodelled", name))
@@ -275,24 +277,11 @@ class Extractor:
                         toks.append(("call", cb.pretty, ()))
         return toks
 
-    def _args(self, bi):
-        it = self.it
-        S = it.exit_state(bi)
-        if S is None:
-            return None, None
-        t = it.body.blocks[bi]["term"]
-        it.cur = (bi, len(it.body.blocks[bi]["stmts"]))
-        it.counter = 0
-        return S, [it.eval_op(S, a) for a in t["args"]]
-
     def _is_byte_vec(self, ty):
         t = ty
         while t.get("k") in ("ref", "ptr"):
             t = t["to"]
         return t.get("s") in ("std::vec::Vec<u8>", "alloc::vec::Vec<u8>")
-
-    def _is_byte_sink(self, ty):
-        return is_u8_sink_type(ty)
 
     def _is_source(self, ty):
         t = ty
@@ -305,11 +294,8 @@ class Extractor:
         c = const_val(sv)
         if c is not None:
             return (kind, "const", c)
-        return (kind, "hole", stable(sv), S.dom(sv).lo, S.dom(sv).hi)
-
-    def bytes_role(self, S, src):
-        v = src
-        return stable(v)
+        d = S.dom(sv)
+        return (kind, "hole", stable(sv), d.lo, d.hi)
 
 
 def render_value(prog, v, depth=0):
